@@ -49,8 +49,8 @@ def jobs(tier, seed):
         fs, cs = _combos(n, k)
         cs = cs[::stride]
         for i in range(0, len(cs), chunk):
-            for mode in ("weighted", "counts", "file"):
-                if mode == "file" and (i // chunk) % 3 != 0 and tier == "quick":
+            for mode in ("weighted", "counts", "file", "file-counts"):
+                if mode.startswith("file") and (i // chunk) % 3 != 0 and tier == "quick":
                     continue
                 out.append({"name": f"n{n}-k{k}-{mode}-{i}", "n": n, "k": k, "stride": stride, "lo": i, "hi": min(i + chunk, len(cs)), "mode": mode,
                             "cost": k * k * (3 if mode == "file" else 1)})
@@ -138,7 +138,7 @@ def work(job):
         for combo in cs:
             res["cases"] += 1
             for mult in ([(1,) * k] if mode != "counts" or k > 2 else [(1,) * k, (2,) + (1,) * (k - 1)]):
-                if mode == "file" and k <= 2:
+                if mode.startswith("file") and k <= 2:
                     mult = (2,) + (1,) * (k - 1)
                 _one_case(combo, mult)
                 if res["cex"]:
@@ -176,13 +176,14 @@ def work(job):
                 results[1] = {"data": dps, "samples": ["s"], "trace": entries[half:], "chain_num": 1}
 
         def call():
-            if mode != "file":
+            if not mode.startswith("file"):
                 g = get_consensus_tree(data=dps, threshold=Lin(tau), **args)
                 tree = get_tree_from_consensus_graph(dps, g)
                 return _clades_of_graph(g), tree
             captured, undo = _install_io(results)
             try:
-                write_consensus_results("in", "table", "tree", consensus_threshold=Lin(tau), weight_type="joint-likelihood")
+                write_consensus_results("in", "table", "tree", consensus_threshold=Lin(tau),
+                                        weight_type=("counts" if mode == "file-counts" else "joint-likelihood"))
             finally:
                 undo()
             tree = captured["tree"]
@@ -199,7 +200,10 @@ def work(job):
             got, tree = p.result
             res["discharged"] += 1
             # supports (oracle)
-            if mode == "file":
+            if mode == "file-counts":
+                cw = [V(Fraction(m, sum(mult))) for m in mult]
+                sup_terms = [({c: sum((cw[j] for j in range(k) if c in _tree_clades(sel[j])), V(0)) for c in _all_clades(sel)}, [])]
+            elif mode == "file":
                 # weight of tree j = count_j * max_r l_{j,r}, normalised; handled per path: the max is whichever the pc allows, so
                 # the claim is stated with explicit max via case split over r
                 sup_terms = _file_supports(sel, mult, ls)
@@ -314,13 +318,15 @@ def replay(case):
                     entries.append({"iter": len(entries), "alpha": 1.0, "log_p_one": lv, "tree": tt.to_dict(), "time": 0.0})
                 tops.append(math.exp(best) * m)
             w = [x / sum(tops) for x in tops]
+            if mode == "file-counts":
+                w = [m / sum(mult) for m in mult]
             half = max(1, len(entries) // 2)
             results = {0: {"data": dps, "samples": ["s"], "trace": entries[:half], "chain_num": 0}}
             if entries[half:]:
                 results[1] = {"data": dps, "samples": ["s"], "trace": entries[half:], "chain_num": 1}
             captured, undo = _install_io(results)
             try:
-                write_consensus_results("in", "table", "tree", consensus_threshold=tau, weight_type="joint-likelihood")
+                write_consensus_results("in", "table", "tree", consensus_threshold=tau, weight_type=("counts" if mode == "file-counts" else "joint-likelihood"))
             finally:
                 undo()
             tree = captured["tree"]
